@@ -19,8 +19,8 @@ import (
 	"github.com/google/pprof/internal/transport"
 )
 
-// jsTable ships encoding/json's string round trip (invalid UTF-8 is coerced to U+FFFD).
-func jsTable(strs map[string]bool) Term {
+// c19JsTable ships encoding/json's string round trip (invalid UTF-8 is coerced to U+FFFD).
+func c19JsTable(strs map[string]bool) Term {
 	var ks []string
 	for k := range strs {
 		ks = append(ks, k)
@@ -38,13 +38,13 @@ func jsTable(strs map[string]bool) Term {
 	return L(l...)
 }
 
-func collectAll(strs map[string]bool, c driver.VerifConfig) {
+func c19CollectAll(strs map[string]bool, c driver.VerifConfig) {
 	for _, p := range driver.VerifConfigDump(c) {
 		strs[p[1]] = true
 	}
 }
 
-func settingsErrCode(err error) int {
+func c19SettingsErrCode(err error) int {
 	if err == nil {
 		return 0
 	}
@@ -64,7 +64,7 @@ func settingsErrCode(err error) int {
 	return 9
 }
 
-func settingsState(fname string) Term {
+func c19SettingsState(fname string) Term {
 	if _, err := os.Stat(fname); err != nil {
 		return L(S("absent"))
 	}
@@ -74,20 +74,20 @@ func settingsState(fname string) Term {
 	}
 	var l []Term
 	for i := range names {
-		l = append(l, L(S(names[i]), cfgTerm(cfgs[i])))
+		l = append(l, L(S(names[i]), c19CfgTerm(cfgs[i])))
 	}
 	return L(S("good"), L(l...))
 }
 
-func menuTerm(fname string, q url.Values) Term {
+func c19MenuTerm(fname string, q url.Values) Term {
 	var l []Term
-	for _, e := range driver.VerifConfigMenu(fname, urlOf(q)) {
+	for _, e := range driver.VerifConfigMenu(fname, c19URLOf(q)) {
 		u, err := url.Parse(e.URL)
 		var qq url.Values
 		if err == nil {
 			qq = u.Query()
 		}
-		l = append(l, L(S(e.Name), valuesTerm(qq), Bool(e.Current), Bool(e.UserConfig), Bool(strings.HasPrefix(e.URL, "?"))))
+		l = append(l, L(S(e.Name), c19ValuesTerm(qq), Bool(e.Current), Bool(e.UserConfig), Bool(strings.HasPrefix(e.URL, "?"))))
 	}
 	return L(l...)
 }
@@ -103,7 +103,7 @@ type c19Op struct {
 func (o c19Op) term() Term {
 	switch o.kind {
 	case "save", "menu":
-		return L(S(o.kind), valuesTerm(o.q))
+		return L(S(o.kind), c19ValuesTerm(o.q))
 	default:
 		return L(S(o.kind), S(o.name))
 	}
@@ -118,15 +118,15 @@ func c19Dir() (dir, fname string) {
 	return dir, filepath.Join(dir, "pprof", "settings.json")
 }
 
-func runC19Settings(c *Ctx, fields []driver.VerifField) {
+func c19RunSettings(c *Ctx, fields []driver.VerifField) {
 	defer os.RemoveAll("c19set")
 	seqCase := func(gen string, cur driver.VerifConfig, init string, initNames []string, initCfgs []driver.VerifConfig, ops []c19Op) {
 		dir, fname := c19Dir()
 		defer os.RemoveAll(dir)
 		driver.VerifSetCurrentConfig(cur)
 		strs, jstrs := map[string]bool{}, map[string]bool{}
-		collectCfg(strs, cur)
-		collectAll(jstrs, cur)
+		c19CollectCfg(strs, cur)
+		c19CollectAll(jstrs, cur)
 		var initT Term
 		switch init {
 		case "absent":
@@ -142,9 +142,9 @@ func runC19Settings(c *Ctx, fields []driver.VerifField) {
 			var l []Term
 			for i := range initNames {
 				jstrs[initNames[i]] = true
-				collectAll(jstrs, initCfgs[i])
-				collectCfg(strs, initCfgs[i])
-				l = append(l, L(S(initNames[i]), cfgTerm(initCfgs[i])))
+				c19CollectAll(jstrs, initCfgs[i])
+				c19CollectCfg(strs, initCfgs[i])
+				l = append(l, L(S(initNames[i]), c19CfgTerm(initCfgs[i])))
 			}
 			initT = L(S("good"), L(l...))
 		}
@@ -152,27 +152,27 @@ func runC19Settings(c *Ctx, fields []driver.VerifField) {
 		nt := false
 		for _, o := range ops {
 			opT = append(opT, o.term())
-			collect(strs, o.q)
-			collect(jstrs, o.q)
+			c19Collect(strs, o.q)
+			c19Collect(jstrs, o.q)
 			switch o.kind {
 			case "save":
-				err := driver.VerifSetConfig(fname, urlOf(o.q))
-				obs = append(obs, L(ZI(settingsErrCode(err)), settingsState(fname)))
+				err := driver.VerifSetConfig(fname, c19URLOf(o.q))
+				obs = append(obs, L(ZI(c19SettingsErrCode(err)), c19SettingsState(fname)))
 				nt = nt || err == nil
 			case "delete":
 				err := driver.VerifRemoveConfig(fname, o.name)
-				obs = append(obs, L(ZI(settingsErrCode(err)), settingsState(fname)))
+				obs = append(obs, L(ZI(c19SettingsErrCode(err)), c19SettingsState(fname)))
 				nt = nt || err == nil
 			case "menu":
-				obs = append(obs, L(ZI(0), menuTerm(fname, o.q)))
+				obs = append(obs, L(ZI(0), c19MenuTerm(fname, o.q)))
 			}
 		}
-		in := L(S("seq"), c19PfTable(strs), jsTable(jstrs), cfgTerm(cur), initT, L(opT...))
+		in := L(S("seq"), c19PfTable(strs), c19JsTable(jstrs), c19CfgTerm(cur), initT, L(opT...))
 		c.Case(gen, in, L(obs...), nt, "op:seq", "init:"+init)
 	}
 	jsonSafe := func() driver.VerifConfig {
 		for {
-			cfg := genConfig(c.R, fields)
+			cfg := c19GenConfig(c.R, fields)
 			ok := true
 			for _, p := range driver.VerifConfigDump(cfg) {
 				if p[1] == "NaN" || p[1] == "+Inf" || p[1] == "-Inf" {
@@ -189,12 +189,12 @@ func runC19Settings(c *Ctx, fields []driver.VerifField) {
 		for i := 0; i < n; i++ {
 			switch c.R.Intn(6) {
 			case 0, 1, 2:
-				q := genQuery(c.R, fields, c.R.Intn(5))
+				q := c19GenQuery(c.R, fields, c.R.Intn(5))
 				if c.R.P(3, 4) { // mostly valid requests
 					q = url.Values{}
 					for _, f := range fields {
 						if f.URLParam != "" && c.R.P(1, 5) {
-							cfg := genConfig(c.R, fields)
+							cfg := c19GenConfig(c.R, fields)
 							for _, p := range driver.VerifConfigDump(cfg) {
 								if p[0] == f.Name && p[1] != "" {
 									q[f.URLParam] = []string{p[1]}
@@ -212,7 +212,7 @@ func runC19Settings(c *Ctx, fields []driver.VerifField) {
 			default:
 				q := url.Values{}
 				if c.R.Bool() {
-					q = genQuery(c.R, fields, c.R.Intn(6))
+					q = c19GenQuery(c.R, fields, c.R.Intn(6))
 				}
 				ops = append(ops, c19Op{kind: "menu", q: q})
 			}
@@ -222,7 +222,7 @@ func runC19Settings(c *Ctx, fields []driver.VerifField) {
 	for k := 0; k < c.Budget(180, 3000); k++ {
 		cur := jsonSafe()
 		if c.R.P(1, 5) {
-			cur = genConfig(c.R, fields) // may hold NaN/Inf: saving then fails in json.Marshal
+			cur = c19GenConfig(c.R, fields) // may hold NaN/Inf: saving then fails in json.Marshal
 		}
 		init := PickS(c.R, []string{"absent", "good", "good", "good", "corrupt"})
 		if k%10 != 0 && init == "corrupt" {
@@ -256,12 +256,12 @@ func runC19Settings(c *Ctx, fields []driver.VerifField) {
 		}
 		seqCase("seq-F25", driver.VerifDefaultConfig(), "absent", nil, nil, ops)
 	}
-	runC19Conc(c, fields)
+	c19RunConc(c, fields)
 }
 
-// runC19Conc: n concurrent save/delete requests against one settings file; the observable is the
+// c19RunConc: n concurrent save/delete requests against one settings file; the observable is the
 // final file. The model enumerates the results of all sequential orders.
-func runC19Conc(c *Ctx, fields []driver.VerifField) {
+func c19RunConc(c *Ctx, fields []driver.VerifField) {
 	prev := runtime.GOMAXPROCS(8)
 	defer runtime.GOMAXPROCS(prev)
 	for k := 0; k < c.Budget(40, 600); k++ {
@@ -269,13 +269,13 @@ func runC19Conc(c *Ctx, fields []driver.VerifField) {
 		cur := driver.VerifDefaultConfig()
 		driver.VerifSetCurrentConfig(cur)
 		strs := map[string]bool{}
-		collectCfg(strs, cur)
+		c19CollectCfg(strs, cur)
 		names := []string{"a", "b"}
 		cfgs := []driver.VerifConfig{driver.VerifDefaultConfig(), driver.VerifDefaultConfig()}
 		if err := driver.VerifWriteSettings(fname, names, cfgs); err != nil {
 			panic(err)
 		}
-		initT := L(S("good"), L(L(S("a"), cfgTerm(cfgs[0])), L(S("b"), cfgTerm(cfgs[1]))))
+		initT := L(S("good"), L(L(S("a"), c19CfgTerm(cfgs[0])), L(S("b"), c19CfgTerm(cfgs[1]))))
 		n := 2 + c.R.Intn(3)
 		if c.Tier == "thorough" {
 			n = 2 + c.R.Intn(4)
@@ -295,7 +295,7 @@ func runC19Conc(c *Ctx, fields []driver.VerifField) {
 		var opT []Term
 		for _, o := range ops {
 			opT = append(opT, o.term())
-			collect(strs, o.q)
+			c19Collect(strs, o.q)
 		}
 		// half of the cases go through the real HTTP handlers /saveconfig and /deleteconfig (one
 		// goroutine per request, settings file located through $XDG_CONFIG_HOME), the others call
@@ -304,7 +304,7 @@ func runC19Conc(c *Ctx, fields []driver.VerifField) {
 		viaHTTP := k%2 == 0
 		if viaHTTP {
 			os.Setenv("XDG_CONFIG_HOME", dir)
-			o := driver.VerifSetDefaults(&plugin.Options{UI: nullUI{}, Writer: &memWriter{}, HTTPTransport: transport.New(nil)})
+			o := driver.VerifSetDefaults(&plugin.Options{UI: c10NullUI{}, Writer: &c10MemWriter{}, HTTPTransport: transport.New(nil)})
 			restoreG := driver.VerifGlobals()
 			h, err := driver.VerifWeb(c10Profile(NewRng(uint64(k)+7)), o)
 			restoreG()
@@ -327,7 +327,7 @@ func runC19Conc(c *Ctx, fields []driver.VerifField) {
 				case viaHTTP:
 					c10Do(handlers, c10Req{"/deleteconfig", url.Values{"config": {o.name}}})
 				case o.kind == "save":
-					driver.VerifSetConfig(fname, urlOf(o.q))
+					driver.VerifSetConfig(fname, c19URLOf(o.q))
 				default:
 					driver.VerifRemoveConfig(fname, o.name)
 				}
@@ -335,8 +335,8 @@ func runC19Conc(c *Ctx, fields []driver.VerifField) {
 		}
 		close(start)
 		wg.Wait()
-		in := L(S("conc"), c19PfTable(strs), jsTable(strs), cfgTerm(cur), initT, L(opT...))
-		c.Case("conc", in, settingsState(fname), true, "op:conc", fmt.Sprintf("conc:%d", n), fmt.Sprintf("conc-http:%v", viaHTTP))
+		in := L(S("conc"), c19PfTable(strs), c19JsTable(strs), c19CfgTerm(cur), initT, L(opT...))
+		c.Case("conc", in, c19SettingsState(fname), true, "op:conc", fmt.Sprintf("conc:%d", n), fmt.Sprintf("conc-http:%v", viaHTTP))
 		os.RemoveAll(dir)
 	}
 }
